@@ -39,7 +39,7 @@ func runFuzzTargets(meta *propMeta) ([]map[string]any, string) {
 		corpusDir := filepath.Join(pkgDir, "testdata", "fuzz", target)
 		before := listFiles(corpusDir)
 		ctx, cancel := context.WithTimeout(context.Background(), time.Duration(seconds+240)*time.Second)
-		cmd := exec.CommandContext(ctx, "go", "test", "-vet=off", "-run", "^$", "-fuzz", "^"+target+"$", "-fuzztime", fmt.Sprintf("%ds", seconds), "./checks")
+		cmd := exec.CommandContext(ctx, "go", append(append([]string{"test"}, modfileArgs()...), "-vet=off", "-run", "^$", "-fuzz", "^"+target+"$", "-fuzztime", fmt.Sprintf("%ds", seconds), "./checks")...)
 		cmd.Dir = harness
 		cmd.Env = append(goEnv(), "VERIF_ROOT="+root)
 		cmd.SysProcAttr = &syscall.SysProcAttr{Setpgid: true}
